@@ -1419,7 +1419,7 @@ namespace Dune {
 
       if(destIndex < localDestEntries && localDest[destIndex]->global() == index.global())
         receive.push_back(RemoteIndex(index.local().attribute(),
-                                      localDest[sourceIndex]));
+                                      localDest[destIndex]));
     }
 
   }
